@@ -371,6 +371,16 @@ def d14_open():
     return any(e.get("status") == "open" for e in entries), (entries[0] if entries else {"id": "D14"})
 
 
+def get_exe(ctx):
+    """gen_runner built against /repo's working tree; C08_GEN_RUNNER=<exe> (with VERIF_REPO=<copy>) lets the mutation
+    tests run this same check against a private mutated copy of the repository without touching /repo"""
+    o = os.environ.get("C08_GEN_RUNNER")
+    if o:
+        ctx.log("using gen_runner override", o, "repo", vlib.REPO)
+        return o, None
+    return gen_common.build_gen_runner(ctx)
+
+
 def evaluate(ctx, exe, defs, model_fn, tag):
     """runs impl + model + spec on every definition; fills d["impl"], d["model"], d["spec"], d["res"]"""
     rng = random.Random(ctx.seed ^ 0x5EED)
@@ -395,7 +405,12 @@ def evaluate(ctx, exe, defs, model_fn, tag):
         if t is not None:
             terms.append((d["id"], t))
     t2 = time.time()
-    model = gen_common.eval_model(ctx, ["Layout", "Reset"], model_fn, terms, tag=tag + "model")
+    # big (batched) definitions get small shards so that they spread over the coqc workers
+    pre = gen_common.PREAMBLE.format(mods="Layout Reset")
+    small = [(i, f"{model_fn} ({t})") for i, t in terms if len(t) <= 20000]
+    big = [(i, f"{model_fn} ({t})") for i, t in terms if len(t) > 20000]
+    model = vlib.coq_eval_strings(ctx, pre, big, shard_size=3, tag=tag + "modelb")
+    model.update(vlib.coq_eval_strings(ctx, pre, small, shard_size=150, tag=tag + "model"))
     ctx.log(f"{len(defs)} definitions: generator {t1 - t0:.1f} s, MIR->Coq terms {t2 - t1:.1f} s, model (coqc vm_compute) {time.time() - t2:.1f} s")
     for d in defs:
         d["impl"] = canon_impl(d["res"])
@@ -524,7 +539,7 @@ def run_l2(ctx, exe, l2defs, hist):
 
 def run(ctx):
     info = vlib.coq_gate(ctx)
-    exe, err = gen_common.build_gen_runner(ctx)
+    exe, err = get_exe(ctx)
     if err or not info["ok"]:
         vlib.violation(ctx, {"broken": err or info["reason"], "theorem": "props/C08.v"}, no_input=True)
         vlib.write_evidence(ctx, info, {"evaluations": 0, "distinct_nontrivial": 0, "rule": RULE, "samples": []})
@@ -637,7 +652,7 @@ def replay(ctx, path):
     if not fi.get("text"):
         run(ctx)
         return
-    exe, err = gen_common.build_gen_runner(ctx)
+    exe, err = get_exe(ctx)
     if err:
         vlib.violation(ctx, {"broken": err}, no_input=True)
         return
